@@ -51,6 +51,38 @@ def setup():
   return 0 if rc == 0 else 1
 
 
+def supervise(pid, tier):
+  """Run the check in a child process.  The implementation under test is native code: an out-of-bounds
+  access can kill the interpreter (SIGSEGV / abort) before any VIOLATION line is printed.  A child that
+  does not end with exit code 0 or 1 is therefore reported here as a violation (crash under the check's
+  inputs), with the tail of its stderr as the replay record."""
+  import collections
+  import subprocess
+  import threading
+
+  env = dict(os.environ)
+  env["VERIF_CHILD"] = "1"
+  p = subprocess.Popen([sys.executable, "-u", os.path.abspath(__file__), pid, "--tier", tier], env=env, stderr=subprocess.PIPE, text=True, errors="replace")
+  tail = collections.deque(maxlen=60)
+
+  def pump():
+    for line in p.stderr:
+      tail.append(line.rstrip("\n"))
+      sys.stderr.write(line)
+      sys.stderr.flush()
+
+  th = threading.Thread(target=pump, daemon=True)
+  th.start()
+  rc = p.wait()
+  th.join(timeout=5)
+  if rc in (0, 1):
+    return rc
+  res = vlib.Result(pid, tier)
+  res.obligation("the check process ran to completion", False, f"exit status {rc}")
+  res.violation(f"crash:exit-status-{rc}", f"the check process died with exit status {rc} (negative = signal) while driving the implementation: a crash or abort inside /repo's native kernels on the check's inputs", {"exit_status": rc, "stderr_tail": list(tail)}, found_input=False)
+  return vlib.finish(res)
+
+
 def main():
   ap = argparse.ArgumentParser()
   ap.add_argument("prop", nargs="?")
@@ -63,6 +95,8 @@ def main():
   pid = a.prop
   tier = "thorough" if a.tier == "thorough" else "quick"
   vlib.ensure_dirs()
+  if not a.replay and os.environ.get("VERIF_CHILD") != "1":
+    sys.exit(supervise(pid, tier))
   quiet_warp()
   res = vlib.Result(pid, tier)
   try:
